@@ -135,15 +135,22 @@ func TestVerif_C16(t *testing.T) {
 		nFill++
 	}
 	_ = nFill
-	followUps := []vfOp{
-		{Op: "attr", Path: "/x", Name: "z", Value: "i32b"},
-		{Op: "mkds", Path: "/new", Type: "i32", Dims: []uint64{2}},
-		{Op: "write", Path: "/x", Pat: 2},
-		{Op: "mkgroup", Path: "/g2"},
-		{Op: "mkds", Path: "/g/new", Type: "u8", Dims: []uint64{2}},
-		{Op: "mkds", Path: "/x/sub", Type: "u8", Dims: []uint64{2}}, // under a dataset name: must fail in both runs
-		{Op: "mkgroup", Path: "/r/subg"},
-		{Op: "mkgroup", Path: "/lx2"}, // a name a failed hard link may have taken
+	followUps := [][]vfOp{
+		{{Op: "attr", Path: "/x", Name: "z", Value: "i32b"}},
+		{{Op: "mkds", Path: "/new", Type: "i32", Dims: []uint64{2}}},
+		{{Op: "write", Path: "/x", Pat: 2}},
+		{{Op: "mkgroup", Path: "/g2"}},
+		{{Op: "mkds", Path: "/g/new", Type: "u8", Dims: []uint64{2}}},
+		{{Op: "mkds", Path: "/x/sub", Type: "u8", Dims: []uint64{2}}}, // under a dataset name: must fail in both runs
+		{{Op: "mkgroup", Path: "/r/subg"}},
+		{{Op: "mkgroup", Path: "/lx2"}}, // a name a failed hard link may have taken
+		// two-call follow-ups on the object the failing call was aimed at: state a failed call
+		// leaves behind on a handle shows only when later calls combine
+		{{Op: "write", Path: "/r", Pat: 2}, {Op: "attr", Path: "/r", Name: "z", Value: "i32b"}},
+		{{Op: "write", Path: "/x", Pat: 2}, {Op: "attr", Path: "/x", Name: "z", Value: "s40"}},
+		{{Op: "attr", Path: "/r", Name: "z", Value: "i32b"}, {Op: "write", Path: "/r", Pat: 2}},
+		{{Op: "resize", Path: "/r", Dims: []uint64{6}}, {Op: "write", Path: "/r", Pat: 2}},
+		{{Op: "attr", Path: "/x", Name: "z", Value: "i32b"}, {Op: "delattr", Path: "/x", Name: "z"}},
 	}
 	// the failing-call catalogue, aimed at each plausible object
 	bads := func(h []vfOp) []vfOp {
@@ -187,7 +194,7 @@ func TestVerif_C16(t *testing.T) {
 			vfOp{Op: "hardlink", Path: "/lx2", Target: "/x"}, vfOp{Op: "attr", Path: "/x", Name: "t", Value: "u8"})
 		return out
 	}
-	r.Rule(fmt.Sprintf("states = every valid prefix of length <= %d over 9 valid operations plus 4 capacity-adjacent states (group with 32 entries, name heap nearly full, dense attributes, header nearly full); for each state every call of the failing-call catalogue (%d kinds, aimed at each existing object) and 4 capacity probes, followed by each of 5 valid follow-up operations; when the call returned an error the closed file must dump equal to the run without the call, the follow-up must return the same, nothing may panic, Close x3 must return nil; non-trivial = the candidate call returned an error", depth, len(vfBadCalls)))
+	r.Rule(fmt.Sprintf("states = every valid prefix of length <= %d over 9 valid operations plus 4 capacity-adjacent states (group with 32 entries, name heap nearly full, dense attributes, header nearly full); for each state every call of the failing-call catalogue (%d kinds, aimed at each existing object) and 4 capacity probes, followed by each of 13 valid follow-ups (8 single calls, 5 two-call sequences on the object the failing call was aimed at); when the call returned an error the closed file must dump equal to the run without the call, the follow-up must return the same, nothing may panic, Close x3 must return nil; non-trivial = the candidate call returned an error", depth, len(vfBadCalls)))
 	type job struct {
 		s []vfOp
 		f vfOp
@@ -212,8 +219,8 @@ func TestVerif_C16(t *testing.T) {
 		}
 		j := jobs[i]
 		for _, v := range followUps {
-			with := append(append(append([]vfOp{}, j.s...), j.f), v)
-			without := append(append([]vfOp{}, j.s...), v)
+			with := append(append(append([]vfOp{}, j.s...), j.f), v...)
+			without := append(append([]vfOp{}, j.s...), v...)
 			a := vfRunC16(dir, with)
 			r.Transitions(1)
 			fi := len(j.s)
@@ -223,7 +230,7 @@ func TestVerif_C16(t *testing.T) {
 			} else {
 				fname = "capacity:" + j.f.Op
 			}
-			detail := map[string]any{"state": vfOpsString(j.s), "failing_call": j.f.String(), "follow_up": v.String(), "ops": with}
+			detail := map[string]any{"state": vfOpsString(j.s), "failing_call": j.f.String(), "follow_up": vfOpsString(v), "ops": with}
 			if a.Panics[fi] {
 				detail["panic"] = fmt.Sprint(a.Errs[fi])
 				r.Case(fname)
@@ -241,10 +248,12 @@ func TestVerif_C16(t *testing.T) {
 			b := vfRunC16(dir, without)
 			r.Transitions(1)
 			var problems []string
-			if a.Panics[fi+1] {
-				problems = append(problems, "follow-up-panics")
-			} else if (a.Errs[fi+1] == nil) != (b.Errs[fi] == nil) {
-				problems = append(problems, "follow-up-behaves-differently("+v.Op+")")
+			for k := range v {
+				if a.Panics[fi+1+k] {
+					problems = append(problems, "follow-up-panics")
+				} else if (a.Errs[fi+1+k] == nil) != (b.Errs[fi+k] == nil) {
+					problems = append(problems, "follow-up-behaves-differently("+v[k].Op+")")
+				}
 			}
 			if a.CloseErr != nil {
 				problems = append(problems, "close-fails")
@@ -273,7 +282,7 @@ func TestVerif_C16(t *testing.T) {
 	errKinds.Range(func(k, v any) bool { n++; return true })
 	r.Set("failing_call_kinds_that_returned_an_error", n)
 	r.States(int64(len(states)))
-	r.Sample(map[string]any{"state": vfOpsString(states[5]), "failing_call": "bad:mkds-duplicate(/x)", "follow_up": followUps[0].String()})
+	r.Sample(map[string]any{"state": vfOpsString(states[5]), "failing_call": "bad:mkds-duplicate(/x)", "follow_up": vfOpsString(followUps[0])})
 
 	// closed-writer calls and repeated Close
 	r.Guard("closed-writer/", nil, func() {
